@@ -226,7 +226,7 @@ EXPECTED_DEFS = {
 ALLOWED_ITEM_ATTRS = [["#", "[", "inline", "]"], ["#", "[", "inline", "(", "always", ")", "]"]]
 SERDE_MOD_ATTR = ["#", "[", "cfg", "(", "feature", "=", '"serde"', ")", "]"]
 SERDE_DOC_ATTR = ["#", "[", "cfg_attr", "(", "docsrs", ",", "doc", "(", "cfg", "(", "feature", "=", '"serde"', ")", ")", ")", "]"]
-SERDE_FNS = {"storeVisitSeq", "pqDeserialize", "dqDeserialize"}
+SERDE_FNS = {"storeVisitSeq", "pqDeserialize", "dqDeserialize", "storeSerialize"}
 
 
 def split_attrs(vals):
@@ -941,7 +941,18 @@ ALL_FNIDS = ["storeSwap", "storePrioAt", "storeSwapRemove", "storeRemove",
              "storeRetain", "pqFromVec", "dqFromVec", "pqFromIter", "dqFromIter", "pqFromQueue", "dqFromQueue",
              "pqDeserialize", "dqDeserialize",
              "pqIterMutNext", "pqIterMutNextBack", "pqIterMutLen", "pqIterMutSizeHint", "pqIterMutDrop",
-             "dqIterMutNext", "dqIterMutNextBack", "dqIterMutLen", "dqIterMutSizeHint", "dqIterMutDrop"]
+             "dqIterMutNext", "dqIterMutNextBack", "dqIterMutLen", "dqIterMutSizeHint", "dqIterMutDrop",
+             "pqIterMutNew", "dqIterMutNew",
+             "pqSortedNext", "dqSortedNext", "dqSortedNextBack", "dqSortedLen", "dqSortedSizeHint",
+             "drainNext", "drainNextBack", "drainLen", "drainSizeHint",
+             "iterNext", "iterNextBack", "iterLen", "iterSizeHint",
+             "intoIterNext", "intoIterNextBack", "intoIterLen", "intoIterSizeHint",
+             "storeIntoVec", "pqIntoVec", "dqIntoVec", "pqIntoSortedVec", "dqIntoAscVec", "dqIntoDescVec",
+             "storeEq", "storeSerialize"]
+# methods the source does not define (the trait's default / not implemented): `none` in the generated table, by design
+NOT_IN_SOURCE = {"pqIterMutNextBack": "`priority_queue::IterMut` does not implement `DoubleEndedIterator`",
+                 "pqIterMutLen": "`priority_queue::IterMut` does not implement `ExactSizeIterator`",
+                 "pqIterMutSizeHint": "`priority_queue::IterMut` keeps the default `size_hint`"}
 HOLE_METHODS = ["new", "index_at", "move_from", "drop"]
 # methods of the queue (`self.m(..)`) / of the store (`self.store.m(..)`) that are calls of translated functions
 QUEUE_CALLS = {"pq": {"heapify": "pqHeapify", "bubble_up": "pqBubbleUp", "up_heapify": "pqUpHeapify",
@@ -2663,13 +2674,33 @@ def pstmt(s, ind):
     if t == "retMapSwapRemoveIndex": return pad + "(.retMapSwapRemoveIndex %s)" % pn(s[1])
     if t == "removeFullThen":
         return pad + "(.removeFullThen %d %d\n%s\n%s  %s)" % (s[1], s[2], pstmts(s[3], ind + 2), pad, pn(s[4]))
+    if t == "setVSlot": return pad + "(.setVSlot %d %s)" % (s[1], pn(s[2]))
+    if t == "retCursor": return pad + "(.retCursor %s %s)" % (pns(s[1]), po(s[2]))
+    if t == "retImapIter": return pad + "(.retImapIter .%s)" % s[1]
+    if t == "retMapItems": return pad + ".retMapItems"
+    if t == "itemsNew": return pad + "(.itemsNew %d)" % s[1]
+    if t == "itemsPush": return pad + "(.itemsPush %d %d)" % (s[1], s[2])
+    if t == "whileSomeCall": return pad + "(.whileSomeCall %d .%s\n%s)" % (s[1], s[2], pstmts(s[3], ind + 2))
+    if t == "retMapEqBy": return pad + "(.retMapEqBy %d %d)" % (s[1], s[2])
+    if t == "setVMapEntries": return pad + "(.setVMapEntries %d)" % s[1]
+    if t == "serBegin": return pad + "(.serBegin %d %s)" % (s[1], pn(s[2]))
+    if t == "serElement": return pad + "(.serElement %d %d %d)" % (s[1], s[2], s[3])
     raise AssertionError(t)
 
 
-def emit(results, unparsed):
+def po(o):
+    t = o[0]
+    if t in ("none", "slotNone"): return "." + t
+    if t == "slotV": return "(.slotV %d)" % o[1]
+    if t in ("slotAt", "len", "hint"): return "(.%s %s)" % (t, pn(o[1]))
+    raise AssertionError(t)
+
+
+def emit(results, unparsed, caps=None, cap_unparsed=None):
     L = ["import PQ.Model.Src",
-         "/-! GENERATED by /verif/tools/gen_src.py from /repo/src/store.rs, /repo/src/priority_queue/mod.rs and",
-         "    /repo/src/double_priority_queue/mod.rs — do not edit.  One `Option Fn` per translated Rust function (`none`: the",
+         "import PQ.Model.SrcCap",
+         "/-! GENERATED by /verif/tools/gen_src.py from /repo/src/store.rs, /repo/src/priority_queue/{mod,iterators}.rs,",
+         "    /repo/src/double_priority_queue/{mod,iterators}.rs and /repo/src/core_iterators.rs — do not edit.  One `Option Fn` per translated Rust function (`none`: the",
          "    function left the supported subset, see the translator's report); `prog` is the table the interpreter",
          "    `PQ.Src.run` looks callees up in.  The loops are separate definitions so that lemmas can name them. -/",
          "namespace PQ.SrcGen",
@@ -2713,7 +2744,7 @@ def emit(results, unparsed):
             L.append("def %s : Option Fn :=\n  some { nparams := %s, pparams := %s, body := %s_body%s }"
                      % (fnid, json.dumps(r["nparams"]), json.dumps(r["pparams"]), fnid, vp))
         else:
-            why = unparsed.get(fnid, "not translated (later phase)")
+            why = unparsed.get(fnid, NOT_IN_SOURCE.get(fnid, "not translated"))
             L.append("/-- `%s`: %s -/" % (fnid, why.replace("-/", "- /")))
             L.append("def %s : Option Fn := none" % fnid)
         L.append("")
@@ -2736,8 +2767,514 @@ def emit(results, unparsed):
     for fnid in ALL_FNIDS:
         L.append("  | .%s => %s" % (fnid, fnid))
     L.append("")
+    L.append("/-! the capacity forwards of `src/store.rs` (see `PQ/Model/SrcCap.lean`); `none`: refused by the translator -/")
+    for name, rust in CAP_FUNCS:
+        if caps and name in caps:
+            L.append("def %s : Option (List PQ.SrcCap.CapStmt) :=\n  some %s" % (name, pcap(caps[name])))
+        else:
+            L.append("/-- `Store::%s`: %s -/" % (rust, ((cap_unparsed or {}).get(name, "not translated")).replace("-/", "- /")))
+            L.append("def %s : Option (List PQ.SrcCap.CapStmt) := none" % name)
+        L.append("")
     L.append("end PQ.SrcGen")
     return "\n".join(L) + "\n"
+
+
+
+# ----------------------------------------------------------------------------------------------------
+# phase 6: the iterators, the capacity forwards and the other small functions
+# ----------------------------------------------------------------------------------------------------
+# These functions live in `impl` blocks that are told apart by (trait, type); their bodies are short and are lowered by the
+# small pattern matcher below (on the same AST as everything else).  The raw-pointer reborrow of `IterMut::next` /
+# `next_back` contains `as` casts and closures: it is recognised token by token and replaced by the trusted primitive
+# "yield slot" before parsing.
+PQ_IT_RS = "src/priority_queue/iterators.rs"
+DQ_IT_RS = "src/double_priority_queue/iterators.rs"
+CORE_IT_RS = "src/core_iterators.rs"
+SMALL_FILES = (PQ_IT_RS, DQ_IT_RS, CORE_IT_RS)
+
+
+def tok_vals(text):
+    return [t[1] for t in tokenize(text)]
+
+
+def yield_tokens(field):
+    return tok_vals("self.pq.store.map.get_index_mut2(self.%s).map(|(i, p)| (i as *mut I, p as *mut P))"
+                    ".map(|(i, p)| unsafe { (i.as_mut().unwrap(), p.as_mut().unwrap()) })" % field)
+
+
+def replace_yield(btoks):
+    """the reborrow chain -> `__yield_slot(self.<field>)`"""
+    out, i = [], 0
+    vals = [t[1] for t in btoks]
+    pats = [(f, yield_tokens(f)) for f in ("pos", "back")]
+    while i < len(btoks):
+        for f, pat in pats:
+            if vals[i:i + len(pat)] == pat:
+                out += [("id", "__yield_slot"), ("op", "("), ("id", "self"), ("op", "."), ("id", f), ("op", ")")]
+                i += len(pat)
+                break
+        else:
+            out.append(btoks[i])
+            i += 1
+    return out
+
+
+def find_impls(toks):
+    """[(trait or None, type, [attrs], open index, close index)] for every `impl` item at the top level of the file"""
+    res, i, depth = [], 0, 0
+    while i < len(toks):
+        v = toks[i][1]
+        if v == "{": depth += 1
+        elif v == "}": depth -= 1
+        elif v == "impl" and toks[i][0] == "id" and depth == 0:
+            j, d, hdr = i + 1, 0, []
+            while not (toks[j][1] == "{" and d == 0):
+                if toks[j][1] == "<": d += 1
+                elif toks[j][1] == ">": d -= 1
+                elif d == 0: hdr.append(toks[j][1])
+                j += 1
+            if "where" in hdr:
+                hdr = hdr[:hdr.index("where")]
+            hdr = [h for h in hdr if h not in ("::",)]
+            if "for" in hdr:
+                k = hdr.index("for")
+                trait, ty = hdr[k - 1], hdr[k + 1]
+            else:
+                trait, ty = None, hdr[0]
+            attrs, _ = split_attrs(item_header(toks, i))
+            d, k = 0, j
+            while True:
+                if toks[k][1] == "{": d += 1
+                elif toks[k][1] == "}": d -= 1
+                k += 1
+                if d == 0: break
+            res.append((trait, ty, attrs, j, k))
+            i = j
+            continue
+        i += 1
+    return res
+
+
+def impl_fns(toks, impl):
+    """names of the `fn` items directly inside an impl block"""
+    _, _, _, a, b = impl
+    names, d = [], 0
+    for k in range(a, b):
+        v = toks[k][1]
+        if v == "{": d += 1
+        elif v == "}": d -= 1
+        elif v == "fn" and toks[k][0] == "id" and d == 1:
+            names.append(toks[k + 1][1])
+    return names
+
+
+def wrapper_shape(t):
+    return [("Iterator", t, ["next", "size_hint"]), ("DoubleEndedIterator", t, ["next_back"]),
+            ("ExactSizeIterator", t, ["len"]), ("FusedIterator", t, [])]
+
+
+# every impl block of the three iterator files, in source order: (trait, type, methods).  A method that is NOT here (e.g. a
+# `size_hint` of the PriorityQueue's `IterMut`) is the trait's default; the hand model says so too (PQ/Model/Iter.lean).
+IMPL_SHAPE = {
+    PQ_IT_RS: [(None, "IterMut", ["new"]), ("Iterator", "IterMut", ["next"]), ("Drop", "IterMut", ["drop"]),
+               ("Iterator", "IntoSortedIter", ["next"])],
+    DQ_IT_RS: [(None, "IterMut", ["new"]), ("Iterator", "IterMut", ["next", "size_hint"]),
+               ("DoubleEndedIterator", "IterMut", ["next_back"]), ("ExactSizeIterator", "IterMut", ["len"]),
+               ("FusedIterator", "IterMut", []), ("Drop", "IterMut", ["drop"]),
+               ("Iterator", "IntoSortedIter", ["next", "size_hint"]), ("DoubleEndedIterator", "IntoSortedIter", ["next_back"]),
+               ("ExactSizeIterator", "IntoSortedIter", ["len"]), ("FusedIterator", "IntoSortedIter", [])],
+    CORE_IT_RS: wrapper_shape("Drain") + wrapper_shape("Iter") + wrapper_shape("IntoIter"),
+}
+SMALL_STRUCTS = {
+    PQ_IT_RS: ["#[cfg(feature = \"std\")] pub struct IterMut<'a, I: 'a, P: 'a, H: 'a = RandomState> where P: Ord, { "
+               "pq: &'a mut PriorityQueue<I, P, H>, pos: usize, }",
+               "#[cfg(not(feature = \"std\"))] pub struct IterMut<'a, I: 'a, P: 'a, H: 'a> where P: Ord, { "
+               "pq: &'a mut PriorityQueue<I, P, H>, pos: usize, }",
+               "#[cfg(feature = \"std\")] pub struct IntoSortedIter<I, P, H = RandomState> { "
+               "pub(crate) pq: PriorityQueue<I, P, H>, }",
+               "#[cfg(not(feature = \"std\"))] pub struct IntoSortedIter<I, P, H> { pub(crate) pq: PriorityQueue<I, P, H>, }"],
+    DQ_IT_RS: ["#[cfg(feature = \"std\")] pub struct IterMut<'a, I: 'a, P: 'a, H: 'a = RandomState> where P: Ord, { "
+               "pq: &'a mut DoublePriorityQueue<I, P, H>, pos: usize, back: usize, }",
+               "#[cfg(not(feature = \"std\"))] pub struct IterMut<'a, I: 'a, P: 'a, H: 'a> where P: Ord, { "
+               "pq: &'a mut DoublePriorityQueue<I, P, H>, pos: usize, back: usize, }",
+               "#[cfg(feature = \"std\")] pub struct IntoSortedIter<I, P, H = RandomState> where P: Ord, { "
+               "pub(crate) pq: DoublePriorityQueue<I, P, H>, }",
+               "#[cfg(not(feature = \"std\"))] pub struct IntoSortedIter<I, P, H> where P: Ord, { "
+               "pub(crate) pq: DoublePriorityQueue<I, P, H>, }"],
+    CORE_IT_RS: ["pub struct Drain<'a, I: 'a, P: 'a> { pub(crate) iter: ::indexmap::map::Drain<'a, I, P>, }",
+                 "pub struct Iter<'a, I: 'a, P: 'a> { pub(crate) iter: ::indexmap::map::Iter<'a, I, P>, }",
+                 "pub struct IntoIter<I, P> { pub(crate) iter: ::indexmap::map::IntoIter<I, P>, }"],
+}
+# (FnId, file, (trait, type) or None for "the only fn of that name in the file", rust name, kind of lowering)
+SMALL_FUNCS = [
+    ("pqIterMutNew", PQ_IT_RS, (None, "IterMut"), "new", "cursor:pos"),
+    ("pqIterMutNext", PQ_IT_RS, ("Iterator", "IterMut"), "next", "cursor:pos"),
+    ("pqIterMutDrop", PQ_IT_RS, ("Drop", "IterMut"), "drop", "cursor:pos"),
+    ("pqSortedNext", PQ_IT_RS, ("Iterator", "IntoSortedIter"), "next", "sorted:pq"),
+    ("dqIterMutNew", DQ_IT_RS, (None, "IterMut"), "new", "cursor:pos,back"),
+    ("dqIterMutNext", DQ_IT_RS, ("Iterator", "IterMut"), "next", "cursor:pos,back"),
+    ("dqIterMutSizeHint", DQ_IT_RS, ("Iterator", "IterMut"), "size_hint", "cursor:pos,back"),
+    ("dqIterMutNextBack", DQ_IT_RS, ("DoubleEndedIterator", "IterMut"), "next_back", "cursor:pos,back"),
+    ("dqIterMutLen", DQ_IT_RS, ("ExactSizeIterator", "IterMut"), "len", "cursor:pos,back"),
+    ("dqIterMutDrop", DQ_IT_RS, ("Drop", "IterMut"), "drop", "cursor:pos,back"),
+    ("dqSortedNext", DQ_IT_RS, ("Iterator", "IntoSortedIter"), "next", "sorted:dq"),
+    ("dqSortedSizeHint", DQ_IT_RS, ("Iterator", "IntoSortedIter"), "size_hint", "sorted:dq"),
+    ("dqSortedNextBack", DQ_IT_RS, ("DoubleEndedIterator", "IntoSortedIter"), "next_back", "sorted:dq"),
+    ("dqSortedLen", DQ_IT_RS, ("ExactSizeIterator", "IntoSortedIter"), "len", "sorted:dq"),
+] + [(w + m[0], CORE_IT_RS, (m[1], t), m[2], "wrapper")
+     for w, t in (("drain", "Drain"), ("iter", "Iter"), ("intoIter", "IntoIter"))
+     for m in (("Next", "Iterator", "next"), ("SizeHint", "Iterator", "size_hint"),
+               ("NextBack", "DoubleEndedIterator", "next_back"), ("Len", "ExactSizeIterator", "len"))] + [
+    ("storeIntoVec", STORE_RS, None, "into_vec", "intovec:store"),
+    ("pqIntoVec", PQ_RS, None, "into_vec", "intovec:queue"),
+    ("dqIntoVec", DQ_RS, None, "into_vec", "intovec:queue"),
+    ("pqIntoSortedVec", PQ_RS, None, "into_sorted_vec", "sortedvec:pq"),
+    ("dqIntoAscVec", DQ_RS, None, "into_ascending_sorted_vec", "sortedvec:dq"),
+    ("dqIntoDescVec", DQ_RS, None, "into_descending_sorted_vec", "sortedvec:dq"),
+    ("storeEq", STORE_RS, None, "eq", "eq"),
+    ("storeSerialize", STORE_RS, None, "serialize", "serialize"),
+]
+CAP_FUNCS = [("capReserve", "reserve"), ("capReserveExact", "reserve_exact"), ("capTryReserve", "try_reserve"),
+             ("capTryReserveExact", "try_reserve_exact"), ("capShrinkToFit", "shrink_to_fit"), ("capCapacity", "capacity")]
+CAP_METHODS = {"reserve": "reserve", "reserve_exact": "reserveExact", "try_reserve": "tryReserve",
+               "try_reserve_exact": "tryReserveExact", "shrink_to_fit": "shrinkToFit", "capacity": "capacity"}
+POP_FNS = {"pq": {"pop": "pqPop"}, "dq": {"pop_min": "dqPopMin", "pop_max": "dqPopMax"}}
+SMALL_EXPECTED_DEFS = {
+    "next": {CORE_IT_RS: 3, DQ_IT_RS: 2, PQ_IT_RS: 2},
+    "next_back": {CORE_IT_RS: 3, DQ_IT_RS: 2},
+    "size_hint": {CORE_IT_RS: 3, DQ_IT_RS: 2},
+    "into_vec": {DQ_RS: 1, PQ_RS: 1, STORE_RS: 1},
+    "into_sorted_vec": {PQ_RS: 1},
+    "into_ascending_sorted_vec": {DQ_RS: 1},
+    "into_descending_sorted_vec": {DQ_RS: 1},
+    "eq": {DQ_RS: 1, PQ_RS: 1, STORE_RS: 1},
+    "serialize": {DQ_RS: 1, PQ_RS: 1, STORE_RS: 1},
+    "reserve": {DQ_RS: 1, PQ_RS: 1, STORE_RS: 1},
+    "reserve_exact": {DQ_RS: 1, PQ_RS: 1, STORE_RS: 1},
+    "try_reserve": {DQ_RS: 1, PQ_RS: 1, STORE_RS: 1},
+    "try_reserve_exact": {DQ_RS: 1, PQ_RS: 1, STORE_RS: 1},
+    "shrink_to_fit": {DQ_RS: 1, PQ_RS: 1, STORE_RS: 1},
+    "capacity": {DQ_RS: 1, PQ_RS: 1, STORE_RS: 1},
+}
+
+
+def small_checks(sources):
+    """the shape of the iterator files that the phase-6 functions rely on"""
+    problems = []
+    try:
+        texts = all_src_files()
+    except OSError as ex:
+        return ["cannot read the sources: %s" % ex]
+    for file, text in texts.items():
+        if re.search(r"\bmacro_rules\b", text):
+            problems.append("`macro_rules!` in %s" % file)
+    for file, shape in IMPL_SHAPE.items():
+        toks = sources.get(file) or []
+        got = []
+        for im in find_impls(toks):
+            if im[2]:
+                problems.append("%s: `impl` block with the attribute `%s`" % (file, " ".join(im[2][0])))
+            got.append((im[0], im[1], impl_fns(toks, im)))
+        if got != shape:
+            problems.append("%s: the impl blocks are %s, expected %s" % (file, json.dumps(got), json.dumps(shape)))
+    for file, snippets in SMALL_STRUCTS.items():
+        text = norm_ws(texts.get(file, ""))
+        for sn in snippets:
+            if text.count(norm_ws(sn)) != 1:
+                problems.append("%s: expected exactly one `%s`" % (file, sn[:70] + ("…" if len(sn) > 70 else "")))
+    got = count_defs(texts, set(SMALL_EXPECTED_DEFS))
+    for name in sorted(SMALL_EXPECTED_DEFS):
+        if got.get(name, {}) != SMALL_EXPECTED_DEFS[name]:
+            problems.append("definitions of `fn %s` in the crate: found %s, expected %s"
+                            % (name, json.dumps(got.get(name, {}), sort_keys=True),
+                               json.dumps(SMALL_EXPECTED_DEFS[name], sort_keys=True)))
+    return problems
+
+
+def small_find(sources, file, sel, rust):
+    toks = sources[file]
+    fs = find_fns(toks, rust)
+    if sel is not None:
+        ims = [im for im in find_impls(toks) if (im[0], im[1]) == sel]
+        if len(ims) != 1:
+            raise Unparsed("expected exactly one `impl %s for %s` in %s" % (sel[0], sel[1], file))
+        fs = [f for f in fs if ims[0][3] < f[3] < ims[0][4]]
+    if len(fs) != 1:
+        raise Unparsed("expected exactly one `fn %s` in %s%s, found %d" % (rust, file, " (%s for %s)" % sel if sel else "", len(fs)))
+    return fs[0]
+
+
+def is_self_field(e, name=None):
+    return e[0] == "field" and e[1] == ("path", ["self"]) and (name is None or e[2] == name)
+
+
+class SmallLower:
+    """lowering of the phase-6 functions; `fields`: the `usize` fields of `self` that are passed by reference"""
+
+    def __init__(self, fnid, kind):
+        self.fnid = fnid
+        self.kind, _, arg = kind.partition(":")
+        self.fields = arg.split(",") if self.kind == "cursor" else []
+        self.owner = arg if self.kind in ("sorted", "sortedvec") else None
+        self.nreg = len(self.fields)
+        self.vreg = 0
+        self.locals = {}
+        self.vars = [(f, "N") for f in self.fields]
+
+    def fresh_n(self, name):
+        r = self.nreg; self.nreg += 1
+        self.locals[name] = ("N", r); self.vars.append((name, "N"))
+        return r
+
+    def fresh_v(self, name):
+        r = self.vreg; self.vreg += 1
+        self.locals[name] = ("V", r); self.vars.append((name, "V"))
+        return r
+
+    def field_reg(self, e):
+        if is_self_field(e) and e[2] in self.fields:
+            return self.fields.index(e[2])
+        raise Unparsed("not a cursor field: %r" % (e,))
+
+    def n(self, e):
+        if e[0] == "num": return ("lit", e[1])
+        if e[0] == "paren": return self.n(e[1])
+        if is_self_field(e) and e[2] in self.fields: return ("var", self.field_reg(e))
+        if e[0] == "path" and len(e[1]) == 1 and self.locals.get(e[1][0], ("", 0))[0] == "N":
+            return ("var", self.locals[e[1][0]][1])
+        if e[0] == "bin" and e[1] == "-":
+            return ("sub", self.site(), self.n(e[2]), self.n(e[3]))
+        if e[0] == "bin" and e[1] == "+":
+            return ("add", self.n(e[2]), self.n(e[3]))
+        if e == ("mcall", ("field", ("field", ("path", ["pq"]), "store"), "map"), "len", []):
+            return ("mapLen",)
+        if e == ("mcall", ("field", ("path", ["self"]), "pq"), "len", []):
+            return ("len",)
+        if e == ("field", ("field", ("path", ["self"]), "store"), "size") or e == ("field", ("path", ["self"]), "size"):
+            return ("len",)
+        raise Unparsed("unsupported `usize` expression %r" % (e,))
+
+    def site(self):
+        # the checked subtractions of the iterator code, in source order per function
+        table = {"dqIterMutLen": [401], "dqIterMutSizeHint": [402], "dqIterMutNextBack": [403]}
+        lst = table.get(self.fnid, [])
+        k = getattr(self, "_site_i", 0)
+        if k >= len(lst):
+            raise Unparsed("more checked subtractions than the site table of %s lists" % self.fnid)
+        self._site_i = k + 1
+        return lst[k]
+
+    def fields_now(self):
+        return [("var", i) for i in range(len(self.fields))]
+
+    def ret_cursor(self, o):
+        return ("retCursor", self.fields_now(), o)
+
+    def b(self, e):
+        ops = {"<": "ltN", "<=": "leN", ">": "gtN", ">=": "geN", "==": "eqN", "!=": "neN"}
+        if e[0] == "bin" and e[1] in ops:
+            return (ops[e[1]], self.n(e[2]), self.n(e[3]))
+        raise Unparsed("unsupported condition %r" % (e,))
+
+    def tail(self, e):
+        k = self.kind
+        if k == "cursor":
+            if e[0] == "path" and e[1] == ["None"]:
+                return [self.ret_cursor(("slotNone",))]
+            if e[0] == "path" and len(e[1]) == 1 and self.locals.get(e[1][0], ("", 0))[0] == "V":
+                return [self.ret_cursor(("slotV", self.locals[e[1][0]][1]))]
+            if e[0] == "call" and e[1] == ("path", ["__yield_slot"]) and len(e[2]) == 1:
+                return [self.ret_cursor(("slotAt", self.n(e[2][0])))]
+            if e[0] == "tuple" and len(e[1]) == 2 and e[1][1] == ("call", ("path", ["Some"]), [e[1][0]]):
+                return [self.ret_cursor(("hint", self.n(e[1][0])))]
+            if e[0] == "struct" and e[1] == ["IterMut"]:
+                names = [f for f, _ in e[2]]
+                if names != ["pq"] + self.fields or e[2][0][1] != ("path", ["pq"]):
+                    raise Unparsed("unexpected fields in the `IterMut` literal")
+                return [("retCursor", [self.n(v) for _, v in e[2][1:]], ("none",))]
+            return [self.ret_cursor(("len", self.n(e)))]
+        if k == "sorted":
+            if e[0] == "mcall" and e[1] == ("field", ("path", ["self"]), "pq") and e[3] == []:
+                if e[2] in POP_FNS[self.owner]:
+                    r = self.fresh_v("result")
+                    return [("callV", r, POP_FNS[self.owner][e[2]], []), ("retV", r)]
+                if e[2] == "len":
+                    return [("retN", ("len",))]
+            if e[0] == "tuple" and len(e[1]) == 2 and e[1][1] == ("call", ("path", ["Some"]), [e[1][0]]):
+                return [("retCursor", [], ("hint", self.n(e[1][0])))]
+            raise Unparsed("unsupported tail expression of a sorted-iterator method")
+        if k == "wrapper":
+            calls = {"next": "next", "next_back": "nextBack", "len": "len", "size_hint": "sizeHint"}
+            if e[0] == "mcall" and e[1] == ("field", ("path", ["self"]), "iter") and e[3] == [] and e[2] in calls:
+                return [("retImapIter", calls[e[2]])]
+            raise Unparsed("a wrapper method must be `self.iter.<method>()`")
+        raise Unparsed("unsupported tail expression")
+
+    def stmt(self, st):
+        if st == ("expr", ("tuple", [])):
+            return []                                                   # `use …;`
+        if st[0] == "let" and st[1][0] == "pid":
+            name, e = st[1][1], st[2]
+            if e[0] == "call" and e[1] == ("path", ["__yield_slot"]) and len(e[2]) == 1:
+                if self.kind != "cursor": raise Unparsed("reborrow outside an `IterMut`")
+                r = self.fresh_v(name)
+                return [("setVSlot", r, self.n(e[2][0]))]
+            x = self.n(e)
+            return [("setN", self.fresh_n(name), x)]
+        if st[0] == "assign" and st[2] in ("+=", "-=") and is_self_field(st[1]) and self.kind == "cursor":
+            r = self.field_reg(st[1])
+            rhs = self.n(st[3])
+            if st[2] == "+=":
+                return [("setN", r, ("add", ("var", r), rhs))]
+            return [("setN", r, ("sub", self.site(), ("var", r), rhs))]
+        if st[0] == "expr" and st[1][0] == "if" and st[1][3] is None:
+            c, blk = st[1][1], st[1][2]
+            if blk[0] == "block" and blk[2] is None and len(blk[1]) == 1 and blk[1][0][0] == "return":
+                return [("ite", self.b(c), self.tail(blk[1][0][1]), [])]
+            raise Unparsed("unsupported `if` in an iterator method")
+        if st[0] == "expr" and st[1] == ("mcall", ("field", ("path", ["self"]), "pq"), "heap_build", []) \
+                and self.kind == "cursor":
+            return [("call", "pqHeapBuild" if self.fnid.startswith("pq") else "dqHeapBuild", [], [])]
+        raise Unparsed("unsupported statement %r" % (st,))
+
+    def body(self, blk):
+        out = []
+        for st in blk[1]:
+            out += self.stmt(st)
+        if blk[2] is not None:
+            out += self.tail(blk[2])
+        return out
+
+
+def lower_small(fnid, file, sel, rust, kind, sources):
+    params, rtoks, btoks, fn_idx = small_find(sources, file, sel, rust)
+    check_fn_context(sources[file], fn_idx, fnid, "`%s`" % rust)
+    kd = kind.partition(":")[0]
+    vals = [t[1] for t in btoks]
+    if kd in ("cursor", "sorted", "wrapper"):
+        lw = SmallLower(fnid, kind)
+        if kd == "wrapper":
+            lw.fields = ["front", "back"]; lw.nreg = 2; lw.vars = [("front", "N"), ("back", "N")]
+        if rust == "new":
+            if [p[0] for p in params] != ["pq"]:
+                raise Unparsed("`IterMut::new` must take `pq`")
+            lw.nreg = 0
+            lw.vars = []
+            body = lw.body(parse_fn_body(replace_yield(btoks)))
+            return {"nparams": [], "pparams": [], "vparams": [], "body": body, "loops": [], "vars": lw.vars}
+        if [p[0] for p in params] != ["self"]:
+            raise Unparsed("a method of an iterator must take only `self`")
+        body = lw.body(parse_fn_body(replace_yield(btoks)))
+        np_ = list(range(len(lw.fields)))
+        return {"nparams": np_, "pparams": [], "vparams": [], "body": body, "loops": [], "vars": lw.vars}
+    if kd == "intovec":
+        if [p[0] for p in params] != ["self"]:
+            raise Unparsed("`into_vec` must take only `self`")
+        if kind == "intovec:store":
+            if vals != tok_vals("{ self.map.into_iter().map(|(i, _)| i).collect() }"):
+                raise Unparsed("`Store::into_vec` is not `self.map.into_iter().map(|(i, _)| i).collect()`")
+            return {"nparams": [], "pparams": [], "vparams": [], "body": [("retMapItems",)], "loops": [], "vars": []}
+        blk = parse_fn_body(btoks)
+        if blk[1] or blk[2] != ("mcall", ("field", ("path", ["self"]), "store"), "into_vec", []):
+            raise Unparsed("`into_vec` is not `self.store.into_vec()`")
+        return {"nparams": [], "pparams": [], "vparams": [], "body": [("callV", 0, "storeIntoVec", []), ("retV", 0)],
+                "loops": [], "vars": [("result", "V")]}
+    if kd == "sortedvec":
+        owner = kind.partition(":")[2]
+        if [p[0] for p in params] != ["self"]:
+            raise Unparsed("must take only `self`")
+        blk = parse_fn_body(btoks)
+        ok = (len(blk[1]) == 2 and blk[2] == ("path", ["res"])
+              and blk[1][0] == ("let", ("pid", "res", True),
+                                ("call", ("path", ["Vec", "with_capacity"]),
+                                 [("field", ("field", ("path", ["self"]), "store"), "size")]))
+              and blk[1][1][0] == "whilelet")
+        if not ok:
+            raise Unparsed("not the `let mut res = Vec::with_capacity(self.store.size); while let … ; res` shape")
+        _, pat, scrut, wb = blk[1][1]
+        if pat != ("pctor", ["Some"], [("ptuple", [("pid", "i", False), ("pwild",)])]):
+            raise Unparsed("the loop pattern is not `Some((i, _))`")
+        if not (scrut[0] == "mcall" and scrut[1] == ("path", ["self"]) and scrut[3] == [] and scrut[2] in POP_FNS[owner]):
+            raise Unparsed("the loop does not call a `pop` of the queue")
+        if wb != ("block", [("expr", ("mcall", ("path", ["res"]), "push", [("path", ["i"])]))], None):
+            raise Unparsed("the loop body is not `res.push(i);`")
+        body = [("itemsNew", 0), ("whileSomeCall", 1, POP_FNS[owner][scrut[2]], [("itemsPush", 0, 1)]), ("retV", 0)]
+        return {"nparams": [], "pparams": [], "vparams": [], "body": body, "loops": [],
+                "vars": [("res", "V"), ("entry", "V")]}
+    if kd == "eq":
+        if [p[0] for p in params] != ["self", "other"]:
+            raise Unparsed("`eq` must take `self` and `other`")
+        hdr = " ".join(item_header(sources[file], fn_idx))
+        blk = parse_fn_body(btoks)
+        if blk[1] or blk[2] != ("bin", "==", ("field", ("path", ["self"]), "map"), ("field", ("path", ["other"]), "map")):
+            raise Unparsed("`Store::eq` is not `self.map == other.map`")
+        return {"nparams": [], "pparams": [], "vparams": [0, 1], "body": [("retMapEqBy", 0, 1)], "loops": [],
+                "vars": [("other", "V"), ("P1: PartialEq<P2>", "V")]}
+    if kd == "serialize":
+        if [p[0] for p in params] != ["self", "serializer"]:
+            raise Unparsed("`serialize` must take `self` and `serializer`")
+        blk = parse_fn_body(btoks)
+        want = ("block",
+                [("let", ("pid", "map_serializer", True),
+                  ("try", ("mcall", ("path", ["serializer"]), "serialize_seq",
+                           [("call", ("path", ["Some"]), [("field", ("path", ["self"]), "size")])]))),
+                 ("for", ("ptuple", [("pid", "k", False), ("pid", "v", False)]), ("ref", ("field", ("path", ["self"]), "map")),
+                  ("block", [("expr", ("try", ("mcall", ("path", ["map_serializer"]), "serialize_element",
+                                               [("ref", ("tuple", [("path", ["k"]), ("path", ["v"])]))])))], None))],
+                ("mcall", ("path", ["map_serializer"]), "end", []))
+        if blk != want:
+            raise Unparsed("`Store::serialize` is not `serialize_seq(Some(self.size))?; for (k, v) in &self.map { "
+                           "serialize_element(&(k, v))?; } end()`")
+        body = [("serBegin", 0, ("len",)), ("setVMapEntries", 1), ("forEntries", 1, 2, 3, [("serElement", 0, 2, 3)]),
+                ("retV", 0)]
+        return {"nparams": [], "pparams": [], "vparams": [], "body": body, "loops": [],
+                "vars": [("map_serializer", "V"), ("&self.map", "V"), ("k", "V"), ("v", "P")]}
+    raise Unparsed("unknown kind " + kind)
+
+
+def lower_cap(rust, sources):
+    """a capacity forward of store.rs as a list of (`call`, coll, method, `?`) / (`retCall`, coll, method) / (`retOk`,)"""
+    params, rtoks, btoks, fn_idx = small_find(sources, STORE_RS, None, rust)
+    check_fn_context(sources[STORE_RS], fn_idx, None, "`Store::%s`" % rust)
+    names = [p[0] for p in params]
+    takes_arg = rust not in ("shrink_to_fit", "capacity")
+    if names != (["self", "additional"] if takes_arg else ["self"]):
+        raise Unparsed("unexpected parameters of `Store::%s`" % rust)
+    blk = parse_fn_body(btoks)
+
+    def call(e):
+        q = False
+        if e[0] == "try":
+            q, e = True, e[1]
+        if not (e[0] == "mcall" and is_self_field(e[1]) and e[1][2] in ("map", "heap", "qp") and e[2] in CAP_METHODS):
+            raise Unparsed("not `self.<map|heap|qp>.<capacity method>(..)`: %r" % (e,))
+        want = [("path", ["additional"])] if e[2] not in ("shrink_to_fit", "capacity") else []
+        if e[3] != want:
+            raise Unparsed("unexpected arguments of `%s`" % e[2])
+        return e[1][2], CAP_METHODS[e[2]], q
+    out = []
+    for st in blk[1]:
+        if st[0] != "expr":
+            raise Unparsed("unsupported statement in `Store::%s`" % rust)
+        c, m, q = call(st[1])
+        out.append(("call", c, m, q))
+    t = blk[2]
+    if t is not None:
+        if t == ("call", ("path", ["Ok"]), [("tuple", [])]):
+            out.append(("retOk",))
+        else:
+            c, m, q = call(t)
+            if q: raise Unparsed("`?` on the tail expression")
+            out.append(("retCall", c, m))
+    return out
+
+
+def pcap(xs):
+    def one(x):
+        if x[0] == "call": return "(.call .%s .%s %s)" % (x[1], x[2], "true" if x[3] else "false")
+        if x[0] == "retCall": return "(.retCall .%s .%s)" % (x[1], x[2])
+        return ".retOk"
+    return "[" + ", ".join(one(x) for x in xs) + "]"
 
 
 def arith_check():
@@ -2793,10 +3330,47 @@ def main():
         except Exception as ex:                     # a bug of the translator must not look like a translation
             unparsed[fnid] = "internal error: %r" % (ex,)
             report["unparsed"].append({"fn": fnid, "rust": "%s::%s" % (file, rust), "why": "internal error: %r" % (ex,)})
+    # phase 6: iterators, small functions, capacity forwards
+    for f in SMALL_FILES:
+        try:
+            sources[f] = tokenize(strip_comments(open(os.path.join(REPO, f)).read()))
+        except (OSError, Unparsed) as ex:
+            src_err[f] = str(ex)
+            sources[f] = []
+    small_problems = [] if src_err else small_checks(sources)
+    report["small_problems"] = small_problems
+    for fnid, file, sel, rust, kind in SMALL_FUNCS:
+        try:
+            if file in src_err:
+                raise Unparsed("cannot read/tokenize %s: %s" % (file, src_err[file]))
+            if global_problems or small_problems:
+                raise Unparsed("the crate does not have the expected shape: " + "; ".join(global_problems + small_problems))
+            results[fnid] = lower_small(fnid, file, sel, rust, kind, sources)
+            report["translated"].append(fnid)
+            report.setdefault("registers", {})[fnid] = ["%d=%s:%s" % (i, nm, k) for i, (nm, k) in enumerate(results[fnid]["vars"])]
+        except Unparsed as ex:
+            unparsed[fnid] = str(ex)
+            report["unparsed"].append({"fn": fnid, "rust": "%s::%s" % (file, rust), "why": str(ex)})
+        except Exception as ex:
+            unparsed[fnid] = "internal error: %r" % (ex,)
+            report["unparsed"].append({"fn": fnid, "rust": "%s::%s" % (file, rust), "why": "internal error: %r" % (ex,)})
+    caps, cap_unparsed = {}, {}
+    for name, rust in CAP_FUNCS:
+        try:
+            if src_err or global_problems or small_problems:
+                raise Unparsed("the crate does not have the expected shape: " + "; ".join(list(src_err.values()) + global_problems + small_problems))
+            caps[name] = lower_cap(rust, sources)
+            report["translated"].append(name)
+        except Unparsed as ex:
+            cap_unparsed[name] = str(ex)
+            report["unparsed"].append({"fn": name, "rust": "%s::%s" % (STORE_RS, rust), "why": str(ex)})
+        except Exception as ex:
+            cap_unparsed[name] = "internal error: %r" % (ex,)
+            report["unparsed"].append({"fn": name, "rust": "%s::%s" % (STORE_RS, rust), "why": "internal error: %r" % (ex,)})
     # the arithmetic helpers (`left right parent level log2_fast better_to_rebuild`) are translated by gen_arith.py:
     # report what it refuses, so that the caller can mark the tie stale
     report["arith_unparsed"] = arith_check()
-    new = emit(results, unparsed)
+    new = emit(results, unparsed, caps, cap_unparsed)
     old = open(out).read() if os.path.exists(out) else None
     report["changed"] = (old != new)
     if old != new:
